@@ -2,10 +2,13 @@ package verifharness
 
 import (
 	"fmt"
+	"net"
 	"sort"
 	"strings"
 	"sync"
 	"time"
+
+	"verif/sim/simnet"
 )
 
 // World "ports" (C09): scripted clients register/close tcp and udp proxies with
@@ -420,12 +423,30 @@ func worldPorts(w *World) {
 				return true
 			})
 			checkInv("drop")
-		case k < 19: // probe a live tcp proxy
-			var cands []*pmProxy
+		case k < 19: // probe a live tcp proxy; or users of a live udp proxy send datagrams of any size, empty ones too
+			var cands, ucands []*pmProxy
 			for _, p := range m.live {
 				if p.proto == "tcp" {
 					cands = append(cands, p)
+				} else if p.proto == "udp" {
+					ucands = append(ucands, p)
 				}
+			}
+			if len(ucands) > 0 && r.Intn(2) == 0 {
+				sort.Slice(ucands, func(a, b int) bool { return ucands[a].name < ucands[b].name })
+				p := ucands[r.Intn(len(ucands))]
+				if uc, err := simnet.ListenUDP("udp", &net.UDPAddr{IP: net.ParseIP("10.0.3.200")}); err == nil {
+					to := &net.UDPAddr{IP: net.ParseIP("10.0.0.1"), Port: p.port}
+					for _, n := range []int{r.Range(1, 100), 0, r.Range(1, 1400), 0}[:r.Range(1, 4)] {
+						uc.WriteToUDP(make([]byte, n), to)
+					}
+					uc.Close()
+				}
+				w.Probe("ports.udp_user_datagrams")
+				hist("datagrams to udp :%d", p.port)
+				time.Sleep(200 * time.Millisecond)
+				checkInv("after-udp-traffic")
+				continue
 			}
 			if len(cands) == 0 {
 				continue
